@@ -463,3 +463,42 @@ func handlerFuncOfCtor(c *report.Ctx, pkg, name string) *ssa.Function {
 	}
 	return got
 }
+
+// servingMethodOfCtor: ctor returns an http.Handler; when every return hands out a value of one and the same
+// concrete repository type converted to the interface, the function that serves a request is that type's ServeHTTP
+// method. It is returned only if it hands the request on to some http.Handler (a middleware), else nil.
+func servingMethodOfCtor(c *report.Ctx, ctor *ssa.Function) *ssa.Function {
+	var got *ssa.Function
+	n := 0
+	for _, e := range an.Exits(ctor) {
+		if len(e.Vals) != 1 {
+			return nil
+		}
+		n++
+		v := e.Vals[0]
+		for {
+			if ci, ok := v.(*ssa.ChangeInterface); ok {
+				v = ci.X
+				continue
+			}
+			break
+		}
+		mi, ok := v.(*ssa.MakeInterface)
+		if !ok {
+			return nil
+		}
+		sel := c.P.Prog.MethodSets.MethodSet(mi.X.Type()).Lookup(nil, "ServeHTTP")
+		if sel == nil {
+			return nil
+		}
+		m := c.P.Prog.MethodValue(sel)
+		if m == nil || len(m.Blocks) == 0 || (got != nil && got != m) {
+			return nil
+		}
+		got = m
+	}
+	if n == 0 || got == nil || got.Signature.Params().Len() != 2 || len(an.CallsTo(got, "net/http.Handler.ServeHTTP")) == 0 {
+		return nil
+	}
+	return got
+}
